@@ -485,7 +485,9 @@ Definition named_anythread_ops : list (string * string) :=
     (* the LOG_* macros: Logger(file, line[, level[, func]]).stream() << ...; ~Logger() *)
     ("Logging", "Logger_Logger"); ("Logging", "Logger_Impl"); ("Logging", "Logger_formatTime");
     ("Logging", "Logger_finish"); ("Logging", "Logger_dtor_Logger"); ("Logging", "defaultOutput");
-    ("Logging", "defaultFlush"); ("Logging", "strerror_tl") ].
+    ("Logging", "defaultFlush"); ("Logging", "strerror_tl");
+    (* ... and the per-thread caches Logger::Impl reads: CurrentThread::tid() / tidString() / name() *)
+    ("Logging", "tid"); ("Logging", "tidString"); ("Logging", "tidStringLength"); ("Logging", "name") ].
 
 (* loop(), channel registration and removal, pool start and loop selection, connection establishment and destruction *)
 Definition named_confined_ops : list (string * string) :=
